@@ -8,12 +8,15 @@ Model: `PySMT.Model.getValue` (Impl/Model.lean) = `EagerModel.get_value`
 substitute the constants, simplify, return the result if it is a constant.
 
 All theorems are `_partial` for the same reason as in C01: they are stated on the fragment
-`inFrag` of the simplifier model (Boolean/core, arithmetic and bit-vector families so far;
-string and array operators are missing) and on quantifier-free formulas `qf` (the
+`inFrag` of the simplifier model (Boolean/core, arithmetic, bit-vector, string and array families,
+with the guards listed in Props/C01.lean) and on quantifier-free formulas `qf` (the
 property's domain: ground-evaluable formulas) with scalar constants assigned to symbols
 (`AsgOK`; array-valued assignments are outside the fragment). `fold_complete_partial` (all
 arguments constants ⇒ every rule returns a constant: the part of C02 that C01 does not give)
-is proved for every rule of these families (`FoldOK`, Proofs/SimpFold.lean, Proofs/SimpBVFold.lean).
+is proved for every rule of these families (`FoldOK`, Proofs/SimpFold.lean, Proofs/SimpBVFold.lean,
+Proofs/SimpStr.lean) except `arrayValue`: a constant array value is not a scalar constant, so terms
+containing array values are outside `ground` (for `arraySelect` / `arrayStore` the statement holds
+vacuously: no scalar constant has an array sort).
 -/
 namespace PySMT.C02
 open PySMT PySMT.Model PySMT.Simplifier
